@@ -103,6 +103,32 @@ def check(run):
             m = gen_doc.mp_minimal_violation(out)
             if m:
                 oracle_fail.append((l[:300], m, o[:200]))
+    # large containers (array 32 / map 32 headers): built in linear time inside the harness, compared by header, length and
+    # hash with the model and with the independent encoder
+    def fnv(b):
+        h = 14695981039346656037
+        for c in b:
+            h = ((h ^ c) * 1099511628211) & 0xFFFFFFFFFFFFFFFF
+        return h
+    bigs = [("arr-nil", c) for c in (65535, 65536)] + [("arr-int", 65537)] + [("map-int", c) for c in (15, 16, 17, 65535, 65536, 65537)]
+    if thorough:
+        bigs += [("map-int", 100000), ("arr-int", 300000), ("arr-nil", 1000000)]
+    blines0 = [f"BIG {s_} {c}" for s_, c in bigs]
+    # (the string pool's linear search makes 65536 distinct keys quadratic: optimized build without sanitizers for these)
+    implO = vlib.need_harness("doc_h", cfg, None, sanitize="", opt="-O2")
+    mismB, moB, ioB = vlib.correspond(run, model, implO, blines0, cfg, "large containers", timeout=1200)
+    all_mism += mismB
+    for (shape, cnt), l, o in zip(bigs, blines0, ioB):
+        if o == "<crash>":
+            continue
+        if shape == "arr-nil": val = [None] * cnt
+        elif shape == "arr-int": val = [("i", i % 7) for i in range(cnt)]
+        else: val = ("o", [(("s", b"k%d" % i), ("i", i % 7)) for i in range(cnt)])
+        enc = gen_doc.mp_encode(val)
+        want = f"{hx(enc[:8])} {len(enc)} {fnv(enc)}"
+        got = " ".join(o.split(" ")[:3])
+        if got != want or "DIFFERS" in o:
+            oracle_fail.append((l, f"MessagePack of {shape} x{cnt} per the specification: " + want, o[:200]))
     # bounded buffers
     blines, expect = [], []
     idx = list(range(len(dumps)))
